@@ -1075,19 +1075,19 @@ COMMON_ASSUMPTIONS = [
 
 REGISTRY = {
     'C14': dict(modules=['LibconfigModel.Properties.C14'], run=run_C14, assumptions=COMMON_ASSUMPTIONS + ['the C memory model and races inside libc are outside the model; ThreadSanitizer observes executed paths only', 'config_set_fatal_error_func is not called concurrently (it writes the only mutable static object)']),
-    'C13': dict(modules=['LibconfigModel.Properties.C13'], run=run_C13, assumptions=COMMON_ASSUMPTIONS + ['what the process does after a handler that returns is documented as undefined and not examined', 'allocations inside libc (fopen, newlocale, stdio buffers) are not the library\'s own and are not failed']),
+    'C13': dict(modules=['LibconfigModel.Properties.CFlow', 'LibconfigModel.Properties.C13'], run=run_C13, assumptions=COMMON_ASSUMPTIONS + ['what the process does after a handler that returns is documented as undefined and not examined', 'allocations inside libc (fopen, newlocale, stdio buffers) are not the library\'s own and are not failed']),
     'C18': dict(modules=['LibconfigModel.Properties.C18', 'LibconfigModel.Properties.Skeleton'], run=run_C18, assumptions=COMMON_ASSUMPTIONS + ['the generic flex matching loop (Flex.lean) is a hand-written model of the skeleton flex emits for every scanner; it is tied by the lex correspondence']),
     'C20': dict(modules=['LibconfigModel.Properties.C20', 'LibconfigModel.Properties.C20File', 'LibconfigModel.Properties.Skeleton', 'LibconfigModel.Properties.C20Buffer', 'LibconfigModel.Properties.C20Used'], run=run_C20, assumptions=COMMON_ASSUMPTIONS + ['the buffer arithmetic of yy_get_next_buffer is modelled by hand (FlexBuffer.lean), pinned to the generated text by the skeleton hashes and exercised at the 8/16/32 KiB boundaries under ASan; yyrealloc is assumed to succeed']),
-    'C15': dict(modules=['LibconfigModel.Properties.C15', 'LibconfigModel.Properties.C15Threads'], run=run_C15, assumptions=COMMON_ASSUMPTIONS + ['the comma-decimal locale is synthesised from C.utf8 by patching the radix byte of LC_NUMERIC (the sandbox has no other locales)', 'glibc newlocale with a NULL base yields the "C" locale in every category']),
-    'C12': dict(modules=['LibconfigModel.Properties.C12'], run=run_C12, assumptions=COMMON_ASSUMPTIONS + ['stdio reports a failed write(2) through fflush()/ferror(); a successful fclose() means the kernel accepted all data']),
-    'C09': dict(modules=['LibconfigModel.Properties.C09', 'LibconfigModel.Properties.C09Line'], run=run_C09, assumptions=COMMON_ASSUMPTIONS),
+    'C15': dict(modules=['LibconfigModel.Properties.CFlow', 'LibconfigModel.Properties.C15', 'LibconfigModel.Properties.C15Threads'], run=run_C15, assumptions=COMMON_ASSUMPTIONS + ['the comma-decimal locale is synthesised from C.utf8 by patching the radix byte of LC_NUMERIC (the sandbox has no other locales)', 'glibc newlocale with a NULL base yields the "C" locale in every category']),
+    'C12': dict(modules=['LibconfigModel.Properties.CFlow', 'LibconfigModel.Properties.C12'], run=run_C12, assumptions=COMMON_ASSUMPTIONS + ['stdio reports a failed write(2) through fflush()/ferror(); a successful fclose() means the kernel accepted all data']),
+    'C09': dict(modules=['LibconfigModel.Properties.CFlow', 'LibconfigModel.Properties.C09', 'LibconfigModel.Properties.C09Line'], run=run_C09, assumptions=COMMON_ASSUMPTIONS),
     'C08': dict(modules=['LibconfigModel.Properties.C08', 'LibconfigModel.Properties.C08Float'], run=run_C08, assumptions=COMMON_ASSUMPTIONS),
     'C02': dict(modules=['LibconfigModel.Properties.C02', 'LibconfigModel.Properties.C02Complete', 'LibconfigModel.Properties.C02Denote', 'LibconfigModel.Properties.Bridge', 'LibconfigModel.Properties.Skeleton'], run=run_C02, assumptions=COMMON_ASSUMPTIONS),
     'C04': dict(modules=['LibconfigModel.Properties.CSource', 'LibconfigModel.Properties.C04', 'LibconfigModel.Properties.C04Read', 'LibconfigModel.Properties.Bridge'], run=run_C04, assumptions=COMMON_ASSUMPTIONS),
     'C05': dict(modules=['LibconfigModel.Properties.CSource', 'LibconfigModel.Properties.C05', 'LibconfigModel.Properties.Bridge'], run=run_C05, assumptions=COMMON_ASSUMPTIONS),
     'C06': dict(modules=['LibconfigModel.Properties.C06'], run=run_C06, assumptions=COMMON_ASSUMPTIONS),
     'C07': dict(modules=['LibconfigModel.Properties.CSource', 'LibconfigModel.Properties.C07', 'LibconfigModel.Properties.Bridge'], run=run_C07, assumptions=COMMON_ASSUMPTIONS),
-    'C16': dict(modules=['LibconfigModel.Properties.C16'], run=run_C16, assumptions=COMMON_ASSUMPTIONS),
+    'C16': dict(modules=['LibconfigModel.Properties.CFlow', 'LibconfigModel.Properties.C16'], run=run_C16, assumptions=COMMON_ASSUMPTIONS),
     'C19': dict(modules=['LibconfigModel.Properties.CSource', 'LibconfigModel.Properties.C19', 'LibconfigModel.Properties.Bridge'], run=run_C19, assumptions=COMMON_ASSUMPTIONS),
 }
 
@@ -1211,13 +1211,13 @@ def run_C11_all(ctx):
     correspondence(ctx, [reread], lambda op, out: None if first_word(op) == 'fdmark' else out, oracle_reread,
                    'C11 release of files and buffers', 'second-call')
 
-REGISTRY['C11'] = dict(modules=['LibconfigModel.Properties.C11', 'LibconfigModel.Properties.Skeleton'], run=run_C11_all, assumptions=COMMON_ASSUMPTIONS)
+REGISTRY['C11'] = dict(modules=['LibconfigModel.Properties.CFlow', 'LibconfigModel.Properties.C11', 'LibconfigModel.Properties.Skeleton'], run=run_C11_all, assumptions=COMMON_ASSUMPTIONS)
 
 import props_c17
 REGISTRY['C17'] = dict(modules=['LibconfigModel.Properties.C17'], run=props_c17.run_C17, assumptions=COMMON_ASSUMPTIONS)
 
 import props_c03
-REGISTRY['C03'] = dict(modules=['LibconfigModel.Properties.C03', 'LibconfigModel.Properties.C03Term', 'LibconfigModel.Properties.Skeleton', 'LibconfigModel.Properties.C20Buffer', 'LibconfigModel.Properties.C03Stack'], run=props_c03.run_C03, assumptions=COMMON_ASSUMPTIONS + [
+REGISTRY['C03'] = dict(modules=['LibconfigModel.Properties.CFlow', 'LibconfigModel.Properties.C03', 'LibconfigModel.Properties.C03Term', 'LibconfigModel.Properties.Skeleton', 'LibconfigModel.Properties.C20Buffer', 'LibconfigModel.Properties.C03Stack'], run=props_c03.run_C03, assumptions=COMMON_ASSUMPTIONS + [
     'PARTIAL: memory safety of the C code (flex buffer pointer arithmetic, memmove/realloc, ctype on char) is observed by ASan/UBSan/LSan on the executed paths only — validation, not proof',
     'the containers are modelled as size/index state machines (Containers.lean); that the C functions perform exactly these updates is read off strbuf.c, strvec.c, libconfig.c by hand and exercised under ASan',
     'the generic flex/bison skeleton loops (Flex.lean, Parser.lean) are hand-written models of generated code, tied by the read correspondence; yy_get_next_buffer and the bison stack reallocation are outside the model',
